@@ -48,7 +48,7 @@ PROP = {'gen': [],
  'technique': 'Coq proof (generic tokeniser theorems of C03 + per-decoder totality lemmas + reflection certificates over the regenerated '
               'automata) + model/implementation correspondence with crash observation in a child process',
  'design_ref': 'DESIGN.md 6.2',
- 'n_quick': 2500,
+ 'n_quick': 4200,
  'n_thorough': 20000,
  'shard': 125,
  'level': 'proof',
